@@ -307,6 +307,14 @@ class BuiltinMixin:
             st.pc.append(z3.And(r >= 0, r < 2 ** 32)) if not self.spec_mode else None
             self.note_assumption("google_crc32c.value is an uninterpreted function with a 32-bit result")
             return V(INT, r)
+        if full == "random.random":
+            r = fresh(REAL, "rand")
+            st.pc.append(z3.And(r.z >= 0, r.z < 1))
+            return r
+        if full == "asyncio.sleep":
+            # suspension point: the task may be cancelled here (asyncio.CancelledError); otherwise returns None
+            self.may_raise(st, z3.Bool(fresh_name("cancelled")), "asyncio.CancelledError", node, "task cancelled while sleeping")
+            return V(NONE, None)
         if full == "time.time":
             r = fresh(REAL, "time")
             return r
